@@ -26,10 +26,11 @@ let impl_prev_cl : (int, (int * string) list) Hashtbl.t = Hashtbl.create 8
 (* C10 runtime spec: what the implementation's duplicate cache remembers, (client, id) -> record *)
 type duprec = { d_h : string; d_pkt : string; d_created : int; mutable d_reply : string option }
 let dupcache : (int * int, duprec) Hashtbl.t = Hashtbl.create 64
+let gone : (int, unit) Hashtbl.t = Hashtbl.create 8
 let pending_reset : (int, unit) Hashtbl.t = Hashtbl.create 8
 
 let reset () =
-  Hashtbl.reset txhist; Hashtbl.reset impl_prev; Hashtbl.reset pending_reset; Hashtbl.reset impl_prev_cl; Hashtbl.reset dupcache;
+  Hashtbl.reset txhist; Hashtbl.reset impl_prev; Hashtbl.reset pending_reset; Hashtbl.reset impl_prev_cl; Hashtbl.reset dupcache; Hashtbl.reset gone;
   options := opt_default; clients := []; servers := []; realms := []; st := None; Hashtbl.reset display; diverged := false
 
 let b01 s = (s = "1")
@@ -104,6 +105,7 @@ let print_state opidx (s : state) =
       pr "obs %d srv %d next=%d lost=%d state=%d mode=%d slots=%s\n" opidx i (int_of_n sv.s_nextid) (int_of_n sv.s_lostrqs)
         (int_of_n sv.s_connstate) (int_of_n sv.s_statsrv) (Buffer.contents b)) s.st_servers;
   List.iteri (fun i (cl : client) ->
+      if not (Hashtbl.mem gone i) then
       let b = Buffer.create 256 in
       List.iteri (fun id e ->
           match e with
@@ -311,6 +313,33 @@ let note_replies impl_all =
            | Some d when d.d_reply = None -> d.d_reply <- Some p
            | _ -> ())
       | _ -> ()) (impl_events impl_all "reply")
+
+(* C17 on the implementation's dump between handler invocations: the reference count shown for a request
+   equals the number of places that hold it (client caches, reply queues, server tables) *)
+let check_refs opidx impl_all =
+  let holders : (string, int) Hashtbl.t = Hashtbl.create 64 and shown : (string, int) Hashtbl.t = Hashtbl.create 64 in
+  let bump h = Hashtbl.replace holders h (1 + (try Hashtbl.find holders h with Not_found -> 0)) in
+  let rc_of s = try Some (int_of_string (String.sub s 2 (String.length s - 2))) with _ -> None in
+  let entry e = match String.split_on_char ':' e with
+    | [ _; _; _; h; rc ] | [ _; h; rc; _ ] ->
+        bump h; (match rc_of rc with Some n -> Hashtbl.replace shown h n | None -> ())
+    | _ -> () in
+  let any = ref false in
+  List.iter (fun toks -> match toks with
+      | _ :: rest -> any := true; List.iter entry (String.split_on_char ',' (get (kv rest) "slots" ""))
+      | [] -> ()) (impl_events impl_all "srv");
+  List.iter (fun toks -> match toks with
+      | _ :: rest ->
+          let k = kv rest in
+          List.iter entry (String.split_on_char ',' (get k "cache" ""));
+          List.iter (fun h -> if h <> "" then bump h) (String.split_on_char ',' (get k "q" ""))
+      | [] -> ()) (impl_events impl_all "cl");
+  if !any then begin
+    let bad = Hashtbl.fold (fun h n acc -> match Hashtbl.find_opt shown h with
+        | Some rc when rc <> n -> Printf.sprintf "%s: count %d, holders %d" h rc n :: acc
+        | _ -> acc) holders [] in
+    spec opidx "C17_refs_balance" (bad = []) (String.concat "; " bad)
+  end
 
 let remember_impl impl_all =
   List.iter (fun t -> match parse_impl_cl t with Some (c, x) -> Hashtbl.replace impl_prev_cl c x | None -> ()) (impl_events impl_all "cl");
@@ -538,6 +567,33 @@ let op_cursor opidx toks =
       st := Some s; print_state opidx s
   | _ -> ()
 
+let op_cgone opidx toks =
+  match toks with
+  | [ c ] ->
+      let s = get_state () in
+      if not (Hashtbl.mem gone (int_of_string c)) then begin
+        Hashtbl.replace gone (int_of_string c) ();
+        let s = removeclient s (nat_of_int (int_of_string c)) in
+        st := Some s; print_state opidx s
+      end
+  | _ -> ()
+
+(* dynflush: not in the state-machine model; the expected observation is fixed by the property: every request
+   queued for the server whose discovery fails is released and forgotten *)
+let op_dynflush opidx impl_all toks =
+  match toks with
+  | _ :: _ :: pkts ->
+      let k = List.length pkts in
+      (match impl_events impl_all "dynflush" with
+       | [ kvs ] ->
+           let g x = try int_of_string (get (kv kvs) x "-1") with _ -> -1 in
+           spec opidx "C17_dynflush_queued" (g "queued" = k && g "cached" = k) (String.concat " " kvs);
+           spec opidx "C17_dynflush_forgotten" (g "remembered" = 0) (String.concat " " kvs)
+       | _ -> spec opidx "C17_dynflush_queued" false "no observation");
+      pr "obs %d dynflush queued=%d cached=%d remembered=0\n" opidx k k;
+      print_state opidx (get_state ())
+  | _ -> ()
+
 let run_op (opidx : int) (impl_all : string list list) (toks : string list) : bool =
   match toks with
   | "cpkt" :: r -> op_cpkt opidx impl_all r; true
@@ -548,9 +604,14 @@ let run_op (opidx : int) (impl_all : string list list) (toks : string list) : bo
   | "reconnect" :: r -> op_reconnect opidx r; true
   | "srvset" :: r -> op_srvset opidx r; true
   | "cursor" :: r -> op_cursor opidx r; true
+  | "cgone" :: r -> op_cgone opidx r; true
+  | "dynflush" :: r -> op_dynflush opidx impl_all r; true
   | _ -> false
 
 let run (opidx : int) (impl_all : string list list) (toks : string list) : bool =
   let r = run_op opidx impl_all toks in
-  if r then (check_slots opidx impl_all; note_replies impl_all);
+  if r then begin
+    check_slots opidx impl_all; note_replies impl_all; check_refs opidx impl_all;
+    (match !st with Some s -> spec opidx "C17_model_refs" (rc_ok s) "reference counts of the model state" | None -> ())
+  end;
   remember_impl impl_all; r
